@@ -107,9 +107,11 @@ def points_only(proj):
     return ",".join(out)
 
 
-def record(ctx, hb, profile, mode, arg, name):
+def record(ctx, hb, profile, mode, arg, name, procs=None):
     tr = "%s/%s.trace" % (ctx.work, name)
     env = ctx.env()
+    if procs:
+        env["GOMAXPROCS"] = str(procs)
     env["VERIF_SEED"] = str(ctx.seed + 1000003 * getattr(ctx, "seed_shift", 0))
     rc, out = C.sh([hb, "run", profile, mode, arg, tr], env=env, timeout=3000, cwd=ctx.work)
     if rc != 0:
@@ -329,6 +331,10 @@ def run_batches(ctx, prop, profile, n_random, pinned, enum_scopes=(), extra=()):
     batches = []
     for p in pinned:
         batches.append(("pinned-" + os.path.basename(p).replace(".script", ""), "script", p))
+        # the pinned histories once more on ONE processor: a goroutine started with `go` then first runs when its parent
+        # blocks, so whatever depends on when a fresh goroutine runs (captured loop variables, wake-ups racing with a
+        # registration) is decided the same way on every run instead of by the load of the machine
+        batches.append(("pinned-" + os.path.basename(p).replace(".script", "") + "-1cpu", "script", p))
     batches.append(("random", "random", str(n_random)))
     for (k0, k1) in enum_scopes:
         path = "%s/enum-%s-%s.script" % (ctx.work, k0, k1)
@@ -340,7 +346,7 @@ def run_batches(ctx, prop, profile, n_random, pinned, enum_scopes=(), extra=()):
         batches.append(("enum-%s-%s" % (k0, k1), "script", path))
     batches = [(t, profile, mo, a) for (t, mo, a) in batches] + list(extra)
     for (tag, prof, mode, arg) in batches:
-        scheds, m, mf = record(ctx, hb, prof, mode, arg, tag)
+        scheds, m, mf = record(ctx, hb, prof, mode, arg, tag, procs=1 if tag.endswith("-1cpu") else None)
         v, d = evaluate(ctx, prop, prof, scheds, m, mf, stats, tag, hb)
         validated += v
         disagreements += d
